@@ -298,8 +298,8 @@ class CodeGenerator(nunavut._generators.AbstractGenerator):
 
                 # We have a newline
                 line_buffer.write(part[search_pos : match_obj.start()])
-                newline_chars = part[match_obj.start() : match_obj.end()]
-                line = line_buffer.getvalue()  # type: str
+                line = line_buffer.getvalue() + part[match_obj.start() : match_obj.end()]  # type: str
+                line, newline_chars = (line[:-2], "\r\n") if line.endswith("\r\n") else (line[:-1], "\n")
                 line_buffer = io.StringIO()
                 cls._filter_and_write_line((line, newline_chars), output_file, line_pps)
                 search_pos = match_obj.end()
